@@ -577,10 +577,7 @@ func exec(h *rt.H, s *state, op string) (out string) {
 		if r := recover(); r != nil {
 			s.dead = true
 			sig := "panic"
-			if fmt.Sprint(r) == "discard of unknown ID" {
-				sig = "panic-dup-profile-id"
-				h.Count("panic:dup-profile-id")
-			}
+			h.Count("panic")
 			h.OracleFail(sig, "the real index panicked: "+fmt.Sprint(r), map[string]any{"panic": fmt.Sprint(r), "ops": s.history})
 			out = "PANIC"
 		}
@@ -757,12 +754,13 @@ func genSubset(h *rt.H, pool []string, max int) []string {
 	return out
 }
 
-// genParents: an ordered duplicate-free list of 0..3 profile ids; rarely (2%) one id twice.
+// genParents: an ordered list of 0..3 profile ids; in 5% of the non-empty lists one id is repeated
+// (UpdateEndpointOrSet lists each parent once; before /repo c40ff03 this made the index panic).
 func genParents(h *rt.H) []string {
 	pool := []string{"p1", "p2", "p3"}
 	h.Rng.Shuffle(len(pool), func(i, j int) { pool[i], pool[j] = pool[j], pool[i] })
 	out := pool[:h.Intn(4)]
-	if len(out) > 0 && h.Chance(0.02) {
+	if len(out) > 0 && h.Chance(0.05) {
 		out = append(out, out[0])
 	}
 	return out
